@@ -4,7 +4,8 @@
    holds many traces  [raw |-> <<ids of threads not created by Python>>, evs |-> <<events>>];
    an event is [ev, t, v, p]: ev the ideal action, t the thread, v the value assigned or the
    value OBSERVED (ffi.errno read, errno seen by the C function on entry, errno seen by C when
-   the callback has returned), p the call path / callback kind.
+   the callback has returned), p the call path / callback kind / for EmbEnter (a C thread calls
+   the dll-exported function of an embedded module) the mode "emb1" | "embw" | "emb".
    Every trace gets a total verdict <<"VERDICT", k, verdict, position>>:  "ok", or the name of
    the event whose property clause failed ("Get", "CallEnter", "CbExit"), or "ctx:<ev>" when
    the recorded context is impossible (a defect of the harness, reported as machinery
@@ -28,6 +29,7 @@ Ctx(x) == CASE x.ev = "Set"       -> SetC(x.t)
             [] x.ev = "CSet"      -> CSetC(x.t)
             [] x.ev = "CbEnter"   -> CbEnterC(x.t)
             [] x.ev = "CbExit"    -> CbExitC(x.t)
+            [] x.ev = "EmbEnter"  -> EmbEnterC(x.t, x.p)
             [] x.ev = "CallExit"  -> CallExitC(x.t)
             [] OTHER -> FALSE
 Guard(x) == CASE x.ev = "Get"       -> GetG(x.t, x.v)
@@ -41,6 +43,7 @@ Effect(x) == CASE x.ev = "Set"       -> SetE(x.t, x.v)
                [] x.ev = "CSet"      -> CSetE(x.t, x.v)
                [] x.ev = "CbEnter"   -> CbEnterE(x.t, x.p)
                [] x.ev = "CbExit"    -> CbExitE(x.t, x.v)
+               [] x.ev = "EmbEnter"  -> EmbEnterE(x.t, x.p)
                [] x.ev = "CallExit"  -> CallExitE(x.t)
 
 Consume == /\ l <= Len(Traces[k].evs) /\ bad = ""
